@@ -175,7 +175,7 @@ class Report:
                 self.validated += 1
                 if rc2 == 1 and "VIOLATED" in out2:
                     rc, out, path = 1, out2, hpath
-                    desc += " [manifests only after the operations that preceded it in the checking process (process-wide state of the library); the replay repeats them first]"
+                    desc += " [not reproduced by the plain replay; reproduced by the second replay script, which first repeats the operations that preceded it in the checking process (process-wide state of the library) or reaches the same pre-state through another legal history (state that depends on how it was reached)]"
             if rc != 1:
                 self.harness_errors.append(
                     f"counterexample did not reproduce (replay exit {rc}): {sig} :: {desc} :: {out[-300:]}"
